@@ -14,6 +14,9 @@ def linear(e: ast.AST) -> dict[str, int] | None:
         return {"": e.value}
     if isinstance(e, ast.Name):
         return {e.id: 1}
+    if isinstance(e, ast.Attribute):
+        d = dotted(e)
+        return {d: 1} if d else None  # `self.__limit`, `view.nbytes`: an opaque symbol
     if isinstance(e, ast.UnaryOp) and isinstance(e.op, ast.USub):
         r = linear(e.operand)
         return {k: -v for k, v in r.items()} if r is not None else None
